@@ -93,3 +93,26 @@ package gcetcbendorsement
 //@   sweep[C07]
 //@   ensures[C01] err == nil && opts.Endorsement != nil ==> authentic(val(opts.Endorsement.SerializedUefiGolden), val(opts.Endorsement.Signature), opts.RootsOfTrust, opts.Now)
 //@   ensures[C01] err == nil ==> exists(e, *epb.VMLaunchEndorsement, e != nil && authentic(val(e.SerializedUefiGolden), val(e.Signature), opts.RootsOfTrust, opts.Now), endorsement)
+
+// ---- C19: raw renderings are the exact field bytes ----
+// In raw form (and in auto form on a non-terminal) exactly the given bytes, nothing more, are written to the writer.
+//@ func WriteBytesForm
+//@   modifies wrLen, wrLog, rdLeft
+//@   sweep[C19] nil index slice div typeassert panic makeslice nilmap
+//@   ensures[C19] err == nil && form == 0 ==> wrLen[ref(w)] == old(wrLen)[ref(w)] + len(bytes) && forall(k, 0 <= k && k < len(bytes) ==> wrLog[ref(w)][old(wrLen)[ref(w)] + k] == bytesAt(bytes, k))
+//@   ensures[C19] form == 0 ==> forall(j, j < old(wrLen)[ref(w)] ==> wrLog[ref(w)][j] == old(wrLog)[ref(w)][j])
+
+// InspectPayload / InspectSignature hand exactly the stored payload / signature bytes, the configured form and the
+// configured writer to WriteBytesForm.
+// (A typed-nil *Inspect stored in the context would be dereferenced by inspectFrom; the context is set by the
+// command, not by the inspected data, so nil dereferences are not swept here.)
+//@ func InspectPayload
+//@   requires endorsement != nil
+//@   modifies wrLen, wrLog, rdLeft
+//@   sweep[C19] index slice div typeassert panic makeslice nilmap
+//@   atcall WriteBytesForm requires[C19] same(p0, endorsement.SerializedUefiGolden)
+
+//@ func InspectSignature
+//@   modifies wrLen, wrLog, rdLeft
+//@   sweep[C19] index slice div typeassert panic makeslice nilmap
+//@   atcall WriteBytesForm requires[C19] endorsement != nil ==> same(p0, endorsement.Signature)
